@@ -275,10 +275,33 @@ func compareReport(c *infoCase, rep *refot.Report) error {
 	return nil
 }
 
+// contextualOnly reports whether the lookup list has subtables, but none of
+// a type that exists in only one of GSUB and GPOS.
+func contextualOnly(ll gtab.LookupList) bool {
+	n := 0
+	for _, l := range ll {
+		for _, s := range l.Subtables {
+			switch s.(type) {
+			case *gtab.SeqContext1, *gtab.SeqContext2, *gtab.SeqContext3,
+				*gtab.ChainedSeqContext1, *gtab.ChainedSeqContext2, *gtab.ChainedSeqContext3:
+				n++
+			default:
+				return false
+			}
+		}
+	}
+	return n > 0
+}
+
+const keyExtTypeContextual = "ext-type:contextual-only"
+
 // siteKey chooses the known-findings key for corrupt output.
 func siteKey(c *infoCase, clause string) string {
 	if len(c.overflow) > 0 {
 		return "wrap:" + c.overflow[0]
+	}
+	if len(c.sites) > 0 && contextualOnly(c.info.LookupList) {
+		return keyExtTypeContextual
 	}
 	for _, s := range c.sites {
 		if s == lookups.SiteSubtableOffset || s == lookups.SiteLookupOffset {
@@ -391,7 +414,15 @@ func genInfoCase(t *rapid.T) *infoCase {
 		Skip: skipSite, Unimplemented: true, EmptyLookups: true,
 	}
 	r := lookups.GenInfo(env, opt, lookups.InfoOptions{Size: isize, NilLists: true}).Draw(t, "info")
-	return &infoCase{kind: kind, info: r.Info, overflow: r.Overflow, sites: r.Sites, classes: r.Classes, desc: r.Desc}
+	c := &infoCase{kind: kind, info: r.Info, overflow: r.Overflow, sites: r.Sites, classes: r.Classes, desc: r.Desc}
+	if len(c.sites) > 0 && len(c.overflow) == 0 && contextualOnly(c.info.LookupList) && stats.IsListed(prop, keyExtTypeContextual) {
+		// excluded by construction: add a lookup that tells GSUB from GPOS
+		stats.Excluded(keyExtTypeContextual)
+		bc := lookups.FindBigClass(map[gtab.Type]string{gtab.TypeGsub: "gsub1_2", gtab.TypeGpos: "gpos1_2"}[kind])
+		c.info.LookupList = append(c.info.LookupList, bigLookup(bc, 3))
+		c.desc = append(c.desc, "appended a small "+bc.Name+" lookup")
+	}
+	return c
 }
 
 func TestC08Info(t *testing.T) {
